@@ -26,9 +26,16 @@ class Plan:
         self.in_shim = 0
         self.unshimmed = []
         self.fired = None
+        self.on_event = None       # optional online monitor called right before every event
 
     def ev(self, kind, detail=''):
         self.n += 1
+        if self.on_event is not None and not self.in_shim:
+            self.in_shim += 1
+            try:
+                self.on_event(self.n, kind, detail)
+            finally:
+                self.in_shim -= 1
         if self.mode == 'record':
             self.trace.append((kind, str(detail)[-60:]))
         if self.at is not None and self.n == self.at and self.fired is None:
